@@ -1,7 +1,7 @@
 /-
   C15 — property theorems: MultiKeyDict / StrategyDict stay coherent under any update history.
   Only statements of the property, non-vacuity examples and the audit live here; the helper
-  lemmas are in `ALV.Lemmas.C15`, `ALV.Lemmas.C15MK`.
+  lemmas are in `ALV.Lemmas.C15`, `ALV.Lemmas.C15MK`, `ALV.Lemmas.C15SD`.
 
   Vocabulary (definitions in `ALV.Model.C15` / `ALV.Spec.C15`):
     `St K V`        the three maps `_keys_dict`, `_inv_dict`, storage;  `step`, `run` = the code
@@ -11,10 +11,13 @@
                     the keys, `_keys_dict` = membership in the tuples, storage = `_inv_dict` reversed)
     `Rep s l`       `Inv s`, and every value's tuple lists its keys in the order of `l`
     `Op.valid`      key tuples of assignments are non-empty (the property's quantifier)
+    `SD K V`        StrategyDict: the three maps + `vars(self)` (name attributes and `default`);
+                    `sdStep`, `sdRun` = the code;  `SDSpec`, `sdSpecStep` = the property;
+                    `SDRep s g` = `Rep` on the maps, equal attributes, equal default
   All theorems hold for every key type `K` and value type `V` with decidable equality and for
   histories of any length.
 -/
-import ALV.Lemmas.C15MK
+import ALV.Lemmas.C15SD
 import ALV.Common.Audit
 
 namespace ALV.Props.C15
@@ -141,6 +144,124 @@ theorem del_missing_keyError (ops : List (Op K V)) (hv : ∀ op ∈ ops, Op.vali
       rw [hrep.getitem_eq, h.getitem_eq, dget_filter_key _ (fun x => decide (x ≠ k))]
       by_cases hkk : k' = k <;> simp [hkk]
 
+/-! ## StrategyDict -/
+
+/-- **C15.13** one StrategyDict operation (assignment, deletion, lookup, attribute access /
+    assignment / deletion, `default`, call): the new state represents the abstract successor and
+    the caller sees the same result (value, `KeyError`, `AttributeError`, `NotImplemented`) -/
+theorem sd_step_refines {s : SD K V} {g : SDSpec K V} (h : SDRep s g) (op : SOp K V)
+    (hv : SOp.valid op) :
+    SDRep (sdStep s op).1 (sdSpecStep g op).1 ∧ (sdStep s op).2 = (sdSpecStep g op).2 :=
+  sdStep_sim h op hv
+
+/-- **C15.14** whole StrategyDict histories; in particular the three maps stay coherent -/
+theorem sd_run_refines (ops : List (SOp K V)) (hv : ∀ op ∈ ops, SOp.valid op) :
+    SDRep (sdRun (SD.empty : SD K V) ops).1 (sdSpecRun {} ops).1 ∧
+      (sdRun (SD.empty : SD K V) ops).2 = (sdSpecRun ({} : SDSpec K V) ops).2 ∧
+      Inv (sdRun (SD.empty : SD K V) ops).1.mkd := by
+  obtain ⟨h1, h2⟩ := sdRun_sim ops sdrep_empty hv
+  exact ⟨h1, h2, h1.rep.inv⟩
+
+/-- **C15.15** every name is exposed as an attribute equal to the item (and no other name is):
+    `getattr(sd, k)` = `sd[k]`, `AttributeError` exactly where `sd[k]` raises `KeyError` — after
+    any history that does not assign name attributes by hand (`sd.name = x`) -/
+theorem attr_equals_item (ops : List (SOp K V)) (hv : ∀ op ∈ ops, SOp.valid op)
+    (hn : ∀ op ∈ ops, SOp.noSetattr op) (k : K) :
+    sdGetattr (sdRun (SD.empty : SD K V) ops).1 (some k)
+      = getitem (sdRun (SD.empty : SD K V) ops).1.mkd k := by
+  obtain ⟨h1, _⟩ := sdRun_sim ops sdrep_empty hv
+  have hc : AttrCoherent (sdSpecRun ({} : SDSpec K V) ops).1 :=
+    sdSpecRun_attrCoherent ops (fun _ => rfl) hn
+  rw [sdGetattr, h1.attr, h1.rep.getitem_eq, hc k]
+
+/-- **C15.16** the default is the first strategy stored — when there is no default, the strategy
+    stored next becomes the default -/
+theorem default_first_stored (ops : List (SOp K V)) (hv : ∀ op ∈ ops, SOp.valid op)
+    (keys : List K) (hk : keys ≠ []) (v : V) :
+    let s := (sdRun (SD.empty : SD K V) ops).1
+    sdDefault s = none → sdDefault (sdStep s (.set keys v)).1 = some v := by
+  intro s hd
+  obtain ⟨h1, _⟩ := sdRun_sim ops sdrep_empty hv
+  obtain ⟨h2, _⟩ := sdStep_sim h1 (.set keys v) hk
+  have hg : (sdSpecRun ({} : SDSpec K V) ops).1.default = none := by rw [← h1.dflt]; exact hd
+  rw [sdDefault, h2.dflt]
+  simp [sdSpecStep, sdSpecSet, hg]
+
+/-- **C15.17** … and it stays the default as long as it keeps one of its names: if `k0` is among
+    the names of the first strategy stored and the rest of the history neither re-assigns nor
+    deletes `k0` (nor touches `default` by hand), the default — and what a call calls — is that
+    first strategy, whatever else happens to the dict -/
+theorem default_is_first_stored (keys0 : List K) (v0 : V) (k0 : K) (hk0 : k0 ∈ keys0)
+    (rest : List (SOp K V)) (hv : ∀ op ∈ rest, SOp.valid op)
+    (hkeep : ∀ op ∈ rest, SOp.keepsName k0 op) :
+    let s := (sdRun (SD.empty : SD K V) (.set keys0 v0 :: rest)).1
+    sdDefault s = some v0 ∧ (sdStep s .call).2 = .val v0 ∧ getitem s.mkd k0 = some v0 := by
+  intro s
+  have hv' : ∀ op ∈ (SOp.set keys0 v0 :: rest), SOp.valid op := by
+    intro op hop
+    rcases List.mem_cons.mp hop with rfl | h
+    · exact List.ne_nil_of_mem hk0
+    · exact hv op h
+  obtain ⟨h1, _⟩ := sdRun_sim _ sdrep_empty hv'
+  have hstart : dget (sdSpecStep ({} : SDSpec K V) (.set keys0 v0)).1.log k0 = some v0 ∧
+      (sdSpecStep ({} : SDSpec K V) (.set keys0 v0)).1.default = some v0 := by
+    simp only [sdSpecStep, sdSpecSet]
+    exact ⟨by rw [dget_specSet]; simp [hk0], trivial⟩
+  obtain ⟨h2, h3⟩ := sdSpecRun_keeps rest hkeep hstart.1 hstart.2
+  have hd : sdDefault s = some v0 := by rw [sdDefault, h1.dflt]; exact h3
+  refine ⟨hd, ?_, ?_⟩
+  · simp only [sdStep, hd]; rfl
+  · rw [h1.rep.getitem_eq]; exact h2
+
+/-- **C15.18** … re-chosen after the default loses all its names: an assignment keeps the default
+    `w` unless every name of `w` is among the assigned names, in which case the newly stored
+    strategy becomes the default -/
+theorem default_rechosen_on_set (ops : List (SOp K V)) (hv : ∀ op ∈ ops, SOp.valid op)
+    (keys : List K) (hk : keys ≠ []) (v w : V) :
+    let s := (sdRun (SD.empty : SD K V) ops).1
+    sdDefault s = some w →
+    sdDefault (sdStep s (.set keys v)).1 =
+      if value2keys s.mkd w ≠ [] ∧ ∀ k ∈ value2keys s.mkd w, k ∈ keys then some v else some w := by
+  intro s hd
+  obtain ⟨h1, _⟩ := sdRun_sim ops sdrep_empty hv
+  obtain ⟨h2, _⟩ := sdStep_sim h1 (.set keys v) hk
+  have hg : (sdSpecRun ({} : SDSpec K V) ops).1.default = some w := by rw [← h1.dflt]; exact hd
+  rw [sdDefault, h2.dflt, h1.rep.groups w]
+  simp only [sdSpecStep, sdSpecSet, hg]
+  by_cases hc : keysOf (sdSpecRun ({} : SDSpec K V) ops).1.log w ≠ [] ∧
+      ∀ k ∈ keysOf (sdSpecRun ({} : SDSpec K V) ops).1.log w, k ∈ keys
+  · rw [if_pos hc, if_pos (losesAllNames_iff.mpr hc)]
+  · rw [if_neg hc, if_neg (fun h => hc (losesAllNames_iff.mp h))]
+
+/-- **C15.19** deleting a name: the default goes exactly when that name was the last name of the
+    default strategy (then `sd.default` is the class-level `NotImplemented` function until the
+    next assignment, C15.16); deleting a missing name raises `KeyError` and changes nothing -/
+theorem default_on_del (ops : List (SOp K V)) (hv : ∀ op ∈ ops, SOp.valid op) (k : K) :
+    let s := (sdRun (SD.empty : SD K V) ops).1
+    (getitem s.mkd k = none → sdStep s (.del k) = (s, .keyError)) ∧
+    (∀ w, getitem s.mkd k = some w →
+      sdDefault (sdStep s (.del k)).1 =
+        if sdDefault s = some w ∧ value2keys s.mkd w = [k] then none else sdDefault s) := by
+  intro s
+  obtain ⟨h1, _⟩ := sdRun_sim ops sdrep_empty hv
+  constructor
+  · intro hk
+    rcases sdDelitem_sim h1 k with ⟨_, hd, _⟩ | ⟨s', g', hl, _, _, _⟩
+    · show sdStep (sdRun (SD.empty : SD K V) ops).1 (.del k) = _
+      simp only [sdStep, hd]; rfl
+    · rw [← h1.rep.getitem_eq] at hl; rw [hk] at hl; cases hl
+  · intro w hk
+    obtain ⟨h2, _⟩ := sdStep_sim h1 (.del k) trivial
+    have hl : dget (sdSpecRun ({} : SDSpec K V) ops).1.log k = some w := by
+      rw [← h1.rep.getitem_eq]; exact hk
+    rw [sdDefault, h2.dflt, sdDefault, h1.dflt, h1.rep.groups w]
+    simp only [sdSpecStep, sdSpecDel, hl]
+
+/-- **C15.20** calling the dict calls the default (`NotImplemented` when there is none) -/
+theorem call_calls_default (s : SD K V) :
+    sdStep s .call = (s, Res.ofDefault (sdDefault s)) ∧ sdStep s .default = (s, Res.ofDefault (sdDefault s)) :=
+  ⟨rfl, rfl⟩
+
 /-! ## non-vacuity: the hypotheses are satisfiable and the statements speak about real histories -/
 
 /-- the docstring example of `MultiKeyDict` -/
@@ -156,6 +277,19 @@ example : ∀ op ∈ ([.set [1, 2, 1] 3, .del 2] : List (Op Nat Nat)), Op.valid 
 example : dedupLast [1, 2, 1, 3, 2] = [1, 3, 2] := by decide
 example : lastAssigned 1 ([.set [1, 2] 0, .set [2] 5, .del 2, .set [3, 1] 7] : List (Op Nat Nat)) none
     = some 7 := by decide
+
+/-- the docstring example of `StrategyDict`, then the default losing its only name -/
+example : (sdRun (SD.empty : SD Nat Nat)
+    [.set [1] 10, .set [2, 3] 20, .call, .getattr 3, .del 1, .call, .set [4] 30, .default, .delattr (some 4),
+     .getattr 4, .get 4]).2
+    = [.done, .done, .val 10, .val 20, .done, .notImpl, .done, .val 30, .done, .attrError, .keyError] := by
+  decide
+example : ∀ op ∈ ([.set [5] 1, .del 7, .setattr (some 9) 3] : List (SOp Nat Nat)), SOp.keepsName 2 op := by
+  intro op h; simp at h; rcases h with rfl | rfl | rfl <;> simp [SOp.keepsName]
+example : ∀ op ∈ ([.set [5] 1, .delattr (some 5), .setattr none 3] : List (SOp Nat Nat)), SOp.noSetattr op := by
+  intro op h; simp at h; rcases h with rfl | rfl | rfl <;> simp [SOp.noSetattr]
+example : sdDefault (sdRun (SD.empty : SD Nat Nat) [.set [1, 2] 10, .set [3] 20, .set [2, 1] 30]).1 = some 30 := by
+  decide
 
 end ALV.Props.C15
 
